@@ -166,18 +166,21 @@ theorem guarded_session_accepted (K : Cont) (P : Nat → Prop) (L : Laws K (guar
 
 def svxGeom (c : Svx.Cfg) : AbsWrite.Geom := { word := c.endian * 0x10000000 + 0x060000 + c.codec, ch := c.ch, sr := c.sr }
 
-/-- THE MISSING FACT of the SVX model, as a hypothesis: the chunk-loop reader `Svx.parse` on a closed file of whole frames reports the
-    requested parameters, the saturated rate and D / bw frames.  lean/SfProps/C04Svx.lean proves the closed form of every byte of
-    the file and evaluates `parse` on concrete sessions (`svx_reopen_examples`); the universal theorem over the chunk loop is not
-    proved (its report) — with it `svx_session_accepted` is unconditional. -/
+/-- the re-open fact of the SVX model: the chunk-loop reader `Svx.parse` on a closed file of whole frames shorter than 2^32 audio
+    bytes (the BODY size field has 32 bits) reports the requested parameters, the saturated rate and D / bw frames.  Until round 9
+    this was THE MISSING FACT, carried as a hypothesis; it is a theorem now — lean/SfProofs/SvxReopen.lean `svx_reopens`, for the reader
+    after the repair of KF-SVX-NAME-LENGTH — and `C04Bridge3.svx_session_accepted_all` has no hypothesis left. -/
 def SvxReopens (c : Svx.Cfg) : Prop :=
-  ∀ st (w : List Sf.Small.WOp), (Sf.Small.opsData w).length % c.bw = 0 →
+  ∀ st (w : List Sf.Small.WOp), (Sf.Small.opsData w).length % c.bw = 0 → (Sf.Small.opsData w).length < 2 ^ 32 →
     Svx.parse (Sf.Small.closedBytes (Svx.spec c) st w) =
       .ok { ch := c.ch, fmt := c.fmtWord, sr := min c.sr 65535, frames := (Sf.Small.opsData w).length / c.bw }
 
+/-- the guard of SVX: the BODY size field -/
+def svxGuard (D : Nat) : Prop := D < 2 ^ 32
+
 theorem svx_facts (c : Svx.Cfg) (hwf : c.wf) (hre : SvxReopens c) :
     Small.Small1Facts (Svx.spec c) Svx.parse (svxGeom c) (encFor c.codec true)
-      (guardOf ((encFor c.codec true).nbytes * (svxGeom c).ch) (fun _ => True)) := by
+      (guardOf ((encFor c.codec true).nbytes * (svxGeom c).ch) svxGuard) := by
   obtain ⟨m1, m2, m3⟩ := Small.small1_machine_facts (Svx.spec c) (Sf.Svx.spec_lenOk c hwf) rfl rfl
   obtain ⟨hcd, hch1, _⟩ := Sf.Svx.cfg_facts c hwf
   have hend : c.endian = 0 ∨ c.endian = 2 := by
@@ -208,26 +211,29 @@ theorem svx_facts (c : Svx.Cfg) (hwf : c.wf) (hre : SvxReopens c) :
   · intro st ops hg
     rw [hbw] at hg ⊢
     have hm : (Sf.Small.opsData (Small.toS1 ops)).length % c.bw = 0 := by rw [Small.opsData_toS1]; exact hg.1
-    refine ⟨_, hre st _ hm, by show _ / c.bw = _; rw [Small.opsData_toS1], rfl, hfmt, ?_⟩
+    have hD : (Sf.Small.opsData (Small.toS1 ops)).length < 2 ^ 32 := by rw [Small.opsData_toS1]; exact hg.2
+    refine ⟨_, hre st _ hm hD, by show _ / c.bw = _; rw [Small.opsData_toS1], rfl, hfmt, ?_⟩
     show rateOk (svxGeom c).major c.sr ((min c.sr 65535 : Nat) : Int) = true
     rw [hmajor]
-    simp only [rateOk, rateClass]
-    simp only [show ((0x06 : Nat) == 0x04) = false from rfl, show ((0x06 : Nat) == 0x06) = true from rfl, Bool.true_or,
-      Bool.false_eq_true, if_false, if_true, Bool.or_eq_true, decide_eq_true_eq, beq_iff_eq]
-    by_cases h : 65536 ≤ c.sr
-    · exact Or.inl h
-    · right; rw [Nat.min_eq_left (by omega)]
+    simp [rateOk, rateClass]                 -- the 16-bit clause is exact: min sr 65535
   · intro st w ⟨ops, hg, e⟩
     rw [hbw] at hg ⊢
     have hm : (Sf.Small.opsData w).length % c.bw = 0 := by rw [e]; exact hg.1
+    have hD : (Sf.Small.opsData w).length < 2 ^ 32 := by rw [e]; exact hg.2
     rw [C04Svx.snapshotBytes_eq c hwf]
-    exact ⟨_, hre st w hm, rfl, rfl, hfmt⟩
+    exact ⟨_, hre st w hm hD, rfl, rfl, hfmt⟩
 
-/-- SVX: every job of whole frames is accepted, GIVEN the universal re-open fact of the chunk-loop reader (`SvxReopens`) -/
+/-- SVX: every job of whole frames below 2^32 audio bytes is accepted, given the re-open fact of the chunk-loop reader (`SvxReopens`:
+    proved in round 9, see `C04Bridge3.svx_session_accepted_all`) -/
 theorem svx_session_accepted (c : Svx.Cfg) (hwf : c.wf) (hre : SvxReopens c) (ty : Ty) (stale stale' : Nat) (ops : List Small.Op)
-    (hv : Valid c.ch ty ops) :
-    accepted (Small.recordOf (Small.small1Cont (Svx.spec c) Svx.parse (svxGeom c) (encFor c.codec true)) ty stale stale' ops) = true :=
-  guarded_session_accepted _ _ (Small.laws_of_small1 (svx_facts c hwf hre)) ty stale stale' ops hv (fun _ _ _ => trivial)
+    (hv : Valid c.ch ty ops) (hguard : svxGuard ((Small.sampleList ops).length * (encFor c.codec true).nbytes)) :
+    accepted (Small.recordOf (Small.small1Cont (Svx.spec c) Svx.parse (svxGeom c) (encFor c.codec true)) ty stale stale' ops) = true := by
+  apply guarded_session_accepted _ svxGuard (Small.laws_of_small1 (svx_facts c hwf hre)) ty stale stale' ops hv
+  intro p post e
+  have : (Small.sampleList p).length ≤ (Small.sampleList ops).length := by rw [e, Small.sampleList_append]; simp
+  have h2 := Nat.mul_le_mul_right (encFor c.codec true).nbytes this
+  unfold svxGuard at *
+  exact Nat.lt_of_le_of_lt h2 hguard
 
 /-- `SvxReopens` on concrete sessions, by evaluation of the model's reader (8-bit at a saturating rate, 16-bit with a file name) -/
 example : Svx.parse (Sf.Small.closedBytes (Svx.spec C04Svx.exVio) 0 [.write [1, 2, 3] false]) =
